@@ -65,6 +65,24 @@ def probe_safe_settype():
     return None
 
 
+def run_parallel(c, jobs, env, timeout=6000):
+    """run harness commands concurrently (one per cargo profile); returns {name: rc}"""
+    e = dict(os.environ)
+    e["VERIF_SEED"] = str(c.seed)
+    e["VERIF_TIER"] = c.tier
+    e.update({k: str(v) for k, v in env.items()})
+    procs = {name: subprocess.Popen(cmd, cwd=c.work, env=e, stdout=subprocess.DEVNULL, stderr=subprocess.PIPE, text=True) for name, cmd in jobs.items()}
+    out = {}
+    for name, pr in procs.items():
+        try:
+            _, err = pr.communicate(timeout=timeout)
+        except subprocess.TimeoutExpired:
+            pr.kill()
+            c.fail_tool("timeout running %s" % (jobs[name][:2],))
+        out[name] = (pr.returncode, err)
+    return out
+
+
 def crash_key(cr):
     sig = "Hang" if cr.get("hang") else "Signal:%s" % SIGNAMES.get(cr.get("signal"), "sig%s" % cr.get("signal"))
     after = ""
@@ -153,9 +171,10 @@ def run(c):
     nontriv = set()
     stats = collections.Counter()
     drift_seen = collections.Counter()
+    rcs = run_parallel(c, {prof: [binp, "replay", inp, os.path.join(c.work, "replay_%s.ndjson" % prof)] for prof, binp in bins.items()}, env)
     for prof, binp in bins.items():
         outp = os.path.join(c.work, "replay_%s.ndjson" % prof)
-        rc, so = c.sh([binp, "replay", inp, outp], env=env, timeout=6000)
+        rc, so = rcs[prof]
         if rc != 0:
             c.fail_tool("replay harness (%s) failed rc=%s %s" % (prof, rc, (so or "")[-500:]))
         seen = set()
@@ -208,50 +227,54 @@ def run(c):
     c.sample({"vector": mid["v"], "expected": mid["o"]})
 
     # ---- 3. record -> Trace_WireLayout ---------------------------------------------------------------
-    traces = 0
+    rcs = run_parallel(c, {prof: [binp, "record", os.path.join(c.work, "events_%s.ndjson" % prof), os.path.join(c.work, "record_%s.json" % prof)]
+                           for prof, binp in bins.items()}, env)
+    combined = [{"ev": "meta", "spec": "WireLayout", "seed": c.seed}]
+    origin = [None]          # trace line -> (profile, event)
     for prof, binp in bins.items():
-        ev = os.path.join(c.work, "events_%s.ndjson" % prof)
-        resj = os.path.join(c.work, "record_%s.json" % prof)
-        rc, so = c.sh([binp, "record", ev, resj], env=env, timeout=6000)
+        rc, so = rcs[prof]
         if rc != 0:
             c.fail_tool("record harness (%s) failed rc=%s %s" % (prof, rc, (so or "")[-500:]))
-        events = read_ndjson(ev)
-        trace_in = os.path.join(c.work, "trace_%s.ndjson" % prof)
-        write_ndjson(trace_in, [{"ev": "meta", "spec": "WireLayout", "seed": c.seed, "profile": prof}] +
-                     [e if "crash" not in e else {"ev": "crash", "i": e["i"]} for e in events])
+        events = read_ndjson(os.path.join(c.work, "events_%s.ndjson" % prof))
+        if not events:
+            c.fail_tool("record driver (%s) produced no events" % prof)
         for e in events:
+            origin.append((prof, e))
             if "crash" in e:
                 cr = e["crash"]
+                combined.append({"ev": "crash", "i": e["i"]})
                 c.violation(crash_key(cr), "[%s build] child process died on a recorded byte string (index %d, seed %d): %s" % (prof, e["i"], c.seed, json.dumps(cr)),
                             {"seed": c.seed, "index": e["i"], "profile": prof, "env": env})
                 continue
+            combined.append(e)
             for p in e.get("pv", []):
                 if not p["key"].startswith("Conf:"):
                     c.violation(p["key"], "[%s build] %s [%s string #%d, %d bytes, seed %d]" % (prof, p["what"], e.get("src"), e["i"], e["d"]["len"], c.seed),
                                 {"seed": c.seed, "index": e["i"], "profile": prof, "bytes": e.get("bytes"), "env": env})
-        rt = c.tlc(SD, "Trace_WireLayout", mode="trace", env={"TRACE": trace_in}, timeout=6000)
-        txt = open(rt.out_path, errors="replace").read()
-        tot = re.findall(r'<<"TOTALS", (\d+), (\d+), (\d+), (\d+)>>', txt)
-        if rt.postcondition_failed or not rt.ok or not tot:
-            c.fail_tool("Trace_WireLayout did not process the whole event file (see %s)" % rt.out_path)
-        nev, nacc, ndrift, nbad = map(int, tot[-1])
-        for mm in re.finditer(r'<<"UNSAFE", (\d+)>>', txt):
-            e = events[int(mm.group(1)) - 2]
-            c.violation("Trace:extent-outside-input", "[%s build] a view reports more bytes than its input / a sub-extent leaves its parent: descriptor %s observed %s" % (
-                prof, json.dumps(e["d"]), json.dumps(e["obs"])), {"event": e})
-        first = True
-        for mm in re.finditer(r'<<"NONCONF", (\d+), "(.*)">>', txt):
-            e = events[int(mm.group(1)) - 2]
-            if first:
-                c.drift("[%s] recorded string #%d: descriptor %s real %s spec %s" % (prof, e["i"], json.dumps(e["d"]), json.dumps(e["obs"]), mm.group(2).replace('\\"', '"')[:400]))
-                first = False
-            else:
-                c.cov["drift"] += 1
-        if nacc == 0:
-            c.drift("[%s] no recorded string was accepted by the header view" % prof)
-        traces += nev
-        c.cov["evaluations"] += nev
         c.cov["distinct_nontrivial"] += sum(1 for e in events if e.get("src") in ("mutated", "random"))
-        c.cov.setdefault("trace_stats", []).append({"profile": prof, "events": nev, "header_accepted": nacc, "nonconforming": ndrift, "unsafe": nbad})
-    c.cov["traces_validated_against_impl"] = traces
+    trace_in = os.path.join(c.work, "trace.ndjson")
+    write_ndjson(trace_in, combined)
+    rt = c.tlc(SD, "Trace_WireLayout", mode="trace", env={"TRACE": trace_in}, timeout=6000)
+    txt = open(rt.out_path, errors="replace").read()
+    tot = re.findall(r'<<"TOTALS", (\d+), (\d+), (\d+), (\d+)>>', txt)
+    if rt.postcondition_failed or not rt.ok or not tot:
+        c.fail_tool("Trace_WireLayout did not process the whole event file (see %s)" % rt.out_path)
+    nev, nacc, ndrift, nbad = map(int, tot[-1])
+    for mm in re.finditer(r'<<"UNSAFE", (\d+)>>', txt):
+        prof, e = origin[int(mm.group(1)) - 1]
+        c.violation("Trace:extent-outside-input", "[%s build] a view reports more bytes than its input / a sub-extent leaves its parent: descriptor %s observed %s" % (
+            prof, json.dumps(e["d"]), json.dumps(e["obs"])), {"event": e, "profile": prof})
+    first = True
+    for mm in re.finditer(r'<<"NONCONF", (\d+), "(.*)">>', txt):
+        prof, e = origin[int(mm.group(1)) - 1]
+        if first:
+            c.drift("[%s] recorded string #%d: descriptor %s real %s spec %s" % (prof, e["i"], json.dumps(e["d"]), json.dumps(e["obs"]), mm.group(2).replace('\\"', '"')[:400]))
+            first = False
+        else:
+            c.cov["drift"] += 1
+    if nacc == 0:
+        c.drift("no recorded string was accepted by the header view")
+    c.cov["evaluations"] += nev
+    c.cov["trace_stats"] = {"events": nev, "header_accepted": nacc, "nonconforming": ndrift, "unsafe": nbad, "profiles": list(bins)}
+    c.cov["traces_validated_against_impl"] = nev
     c.sample({"trace_event": "obs: descriptor of the independent extractor + constructor results per view, see spec/Wire/Trace_WireLayout.tla"})
